@@ -21,7 +21,7 @@ const PLAIN: &[&str] = &[
 
 /// keywords / reserved or special identifiers in Rust, C, C++, C#, Go, MoonBit, D,
 /// plus names the generators use for their own temporaries
-const ADVERSARIAL: &[&str] = &[
+pub const ADVERSARIAL: &[&str] = &[
     // WIT keywords (need % escaping)
     "type", "record", "enum", "flags", "variant", "resource", "func", "static", "interface", "world", "import", "export",
     "use", "as", "from", "include", "with", "package", "constructor", "async", "bool", "string", "list", "option", "result",
@@ -52,13 +52,19 @@ const ADVERSARIAL: &[&str] = &[
 
 #[derive(Default)]
 pub struct NamePool {
-    counter: u32,
+    pub(crate) counter: u32,
+    /// every name handed out so far, lower-cased and without `-`
+    pub all: BTreeSet<String>,
+    /// backend-specific adversarial names (empty: the tape is decoded as before)
+    pub extra: Vec<&'static str>,
 }
 
 impl NamePool {
     /// A kebab-case name not in `used` (compared case-insensitively); inserted into `used`.
     pub fn fresh(&mut self, t: &mut Tape<'_>, used: &mut BTreeSet<String>, adversarial: bool) -> String {
-        let base = if adversarial && t.chance(2, 5) {
+        let base = if adversarial && !self.extra.is_empty() && t.chance(1, 6) {
+            self.extra[t.pick(self.extra.len())].to_string()
+        } else if adversarial && t.chance(2, 5) {
             let b = ADVERSARIAL[t.pick(ADVERSARIAL.len())];
             // occasionally an upper-case word or a digit suffix variant
             match t.pick(12) {
@@ -79,6 +85,7 @@ impl NamePool {
             }
         }
         used.insert(name.clone());
+        self.all.insert(name.replace('-', "").to_ascii_lowercase());
         name
     }
 }
